@@ -73,11 +73,19 @@ def build_nodes(tr, inp: bytes, out: bytes | None, omit, dep, parent, name, acc)
     return acc
 
 
+STALE = b"left behind by an earlier invocation\n"
+
+
 def run_cache(ctx, tr, data: bytes, omit, dep, eb, via, scn):
     d = ctx.tmp("c11")
     inp, oute, outc = d / "in.suit", d / "out.suit", d / "cache.bin"
     inp.write_bytes(data)
     err = None
+    if scn.get("stale"):
+        # history: both output files exist already, left by an earlier invocation; a file still holding the marker afterwards
+        # was not written by THIS invocation
+        oute.write_bytes(STALE)
+        outc.write_bytes(STALE)
     if via == "cli":
         a = ["cache_create", "from_envelope", "--input-envelope", inp, "--output-envelope", oute, "--output-file", outc,
              "--eb-size", eb]
@@ -97,6 +105,9 @@ def run_cache(ctx, tr, data: bytes, omit, dep, eb, via, scn):
                                   output_file=str(outc))
         except Exception as e:
             err = repr(e)
+    for f in (oute, outc):
+        if f.exists() and f.read_bytes() == STALE:
+            f.unlink()
     written = oute.exists() or outc.exists()
     out = oute.read_bytes() if oute.exists() else None
     cache = []
@@ -124,6 +135,10 @@ def run_one(ctx, tr, data: bytes, name, replace: bytes | None, tofile: bool, via
     inp.write_bytes(data)
     if replace is not None:
         rep.write_bytes(replace)
+    if scn.get("stale"):
+        oute.write_bytes(STALE)
+        if tofile:
+            outp.write_bytes(STALE)
     if via == "cli":
         a = ["payload_extract", "--input-envelope", inp, "--output-envelope", oute, "--payload-name", name]
         if tofile:
@@ -140,6 +155,9 @@ def run_one(ctx, tr, data: bytes, name, replace: bytes | None, tofile: bool, via
                                      str(rep) if replace is not None else None)
         except Exception:
             pass
+    for f in (oute, outp):
+        if f.exists() and f.read_bytes() == STALE:
+            f.unlink()
     t = tr.terms
     ei = project.Env(data)
     eo = project.Env(oute.read_bytes()) if oute.exists() and is_env(oute.read_bytes()) else None
@@ -223,7 +241,7 @@ def run(ctx: core.Check):
     for k, s in enumerate(scns):
         root, omit, dep = from_tlc(ctx, ctx.rng, d, s, k)
         w = run_cache(ctx, tr, root, omit, dep, [1, 8, 16, 64][k % 4], "cli" if k % 40 == 0 else "lib",
-                      {"origin": "tlc", "scn": s, "omit": omit, "dep": dep, "env": root})
+                      {"origin": "tlc", "scn": s, "omit": omit, "dep": dep, "env": root, "stale": k % 4 == 2})
         drift += w != s["written"]
         if k == 1:
             ctx.sample({"tlc_scenario": s, "omit": omit, "dep": dep, "event": tr.events[-1]})
@@ -234,7 +252,7 @@ def run(ctx: core.Check):
     for k in range(80 if ctx.quick else 2500):
         root, omit, dep = random_case(ctx, ctx.rng, d, k)
         run_cache(ctx, tr, root, omit, dep, ctx.rng.choice([1, 8, 16]), "cli" if k % 40 == 0 else "lib",
-                  {"origin": "random", "omit": omit, "dep": dep, "env": root})
+                  {"origin": "random", "omit": omit, "dep": dep, "env": root, "stale": k % 4 == 2})
         e = project.Env(root)
         names = [n for n, _ in e.payloads]
         if names:
@@ -242,7 +260,7 @@ def run(ctx: core.Check):
             rep = ctx.rng.choice([None, b"", envgen.blob(33, k)])
             tofile = ctx.rng.random() < 0.6
             run_one(ctx, tr, root, nm, rep, tofile, "cli" if k % 30 == 0 else "lib",
-                    {"origin": "one", "name": nm, "env": root, "replace": rep, "tofile": tofile})
+                    {"origin": "one", "name": nm, "env": root, "replace": rep, "tofile": tofile, "stale": k % 3 == 1})
         if len(tr.events) > 4000:
             toolrun.report(ctx, tr, label="extract-random", keyfn=lambda b, s: f"{b['clause']}:{s.get('omit')}:{s.get('dep')}:{s.get('name')}:{len(s['env'])}")
             tr = toolrun.Trace()
